@@ -17,7 +17,7 @@ RULE = ("(a) expression trees to depth 3 over the five standard functions, gener
         "function or literal as a test, wrong arity, wrong argument kind, unknown function: must be refused (classified by "
         "the gate predicate gate_query = false); (c) index and slice bounds at, just inside and just outside the limits "
         "under default and narrowed limits, leading-zero indices, empty and comma-terminated lists. Compile results and "
-        "error kinds are also compared with the parser model. non-trivial = the query has a filter or a bound; distinct = "
+        "error kinds are also compared with the parser model; two unrelated environments of the same process have the 'unknown' function names registered beforehand. non-trivial = the query has a filter or a bound; distinct = "
         "distinct (limits, query text)")
 TRUSTED = []
 ASSUMPTIONS = ["type checks enabled (well_typed=True)"]
@@ -146,7 +146,34 @@ def to_sx(case):
             SX.s2sx(text_of(case)), Q.query_sx(q)]
 
 
+_OTHER = []
+
+
+def _other_environment():
+    """history: an UNRELATED environment of the same process registers functions under the very names the planted
+    'unknown function' cases use - a function known to one environment stays unknown to every other"""
+    if _OTHER:
+        return
+    from jsonpath.function_extensions import ExpressionType, FilterFunction
+
+    class _Fn(FilterFunction):
+        arg_types = [ExpressionType.VALUE]
+        return_type = ExpressionType.VALUE
+
+        def __call__(self, obj):
+            return obj
+
+    class _Sub(jsonpath.JSONPathEnvironment):
+        pass
+    for env in (jsonpath.JSONPathEnvironment(), _Sub()):
+        env.function_extensions["foo"] = _Fn()
+        env.function_extensions["len"] = _Fn()
+        env.compile("$[?foo(@.a) == 1]")
+        _OTHER.append(env)
+
+
 def impl(case):
+    _other_environment()
     attrs = {}
     if case["lo"] is not None:
         attrs["min_int_index"] = case["lo"]
